@@ -7,19 +7,19 @@ SCHEMES_MODEL = "KZG10"  # schemes whose Lean model + theorems back the run (oth
 
 claimed = {
  "C01": ("Lean proof + differential correspondence",
-   "Completeness is proved in Lean for the exponent-form model (all polynomials, hiding bounds, RNG streams, points, batch sizes); "
+   "Completeness is proved in Lean for the exact exponent-form models of every scheme (all polynomials, bounds, hiding, RNG streams, points), single AND batched over arbitrary query lists (marlin_batch_complete, sonic/ipa/default batch theorems), with order-independence of the label-matched batch forms; "
    "the model is tied to /repo by running the real committer/prover/verifier on trapdoor keys and comparing every output with the model; "
    "all ten scheme instances are additionally driven through the trait API with honest batches and permuted lists (must-accept)."),
  "C02": ("Lean proof (exact acceptance condition) + differential correspondence",
    "check accepts iff an explicit defect vanishes; wrong value / point / commitment corollaries; every mutated claim is decided by implementation and model and must agree; "
    "trait-level runs perturb every position of batches of all schemes (must-refuse)."),
  "C03": ("Lean proof per attack class + differential correspondence",
-   "Exact defects for the catalogue's attacks (other polynomial, other point, component replacement, shape); arbitrary adversaries remain the hardness assumption (partial). "
+   "Exact defects for the catalogue's attacks (other polynomial, other point, component replacement, shape) for every scheme; reductions for algebraic forgers (extraction polynomial with the trapdoor as root: KZG10, Marlin, Sonic, multilinear PST, PST13) and special soundness of Hyrax's dot-product argument; what remains assumed is only the hardness of finding the trapdoor / a discrete-log relation. "
    "Trait-level runs apply proof-list shape mutations to all schemes."),
  "C05": ("Lean proof (batch defect = randomizer-weighted sum) + differential correspondence",
-   "batch accepts iff sum r_i*Delta_i = 0; all-true accepted for every randomizer list; single false claim rejected; implementation batch decision == AND of individual decisions == model with replayed randomizers."),
+   "batch accepts iff sum r_i*Delta_i = 0; all-true accepted for every randomizer list; single false claim rejected; at most ONE value of a randomizer accepts a batch with a false claim however errors were planted; trait-default batch_check = conjunction of group checks (generic model, ToyPC correspondence); implementation batch decision == AND of individual decisions == model with replayed randomizers."),
  "C07": ("Lean proof (structure of hiding commitments) + RNG-replay correspondence",
-   "commitment = plain + gamma*blind(beta) with h+2 coefficients taken from the caller's draws; missing RNG refused; non-hiding deterministic; the RNG stream is replayed and fed to the model."),
+   "commitment = plain + gamma*blind(beta) with h+2 coefficients taken from the caller's draws (KZG10, Marlin incl. independent shifted blinding, Sonic, PST13); IPA Pedersen blinder and fresh hiding polynomial in open; Hyrax per-row blinders and per-polynomial fresh nonces (never shared), perfectly masked response; missing RNG refused; non-hiding deterministic; the RNG stream is replayed and fed to the model."),
  "C08": ("Lean proof (commit = key-defined linear map) + naive-sum correspondence",
    "commit = <p, key>, additive, homogeneous, zero -> identity, representation independent; implementation compared with a naive double-and-add sum over the published key points and with the model."),
  "C10": ("Lean proof (check <-> relation) + single-fault differential correspondence",
